@@ -103,17 +103,62 @@ impl World {
 
 fn object_attributes(f: &mut Filler) -> ExtensionObject {
     let m = AttributesMask::DISPLAY_NAME | AttributesMask::DESCRIPTION | AttributesMask::WRITE_MASK | AttributesMask::USER_WRITE_MASK | AttributesMask::EVENT_NOTIFIER;
-    ExtensionObject::from_encodable(
-        ObjectId::ObjectAttributes_Encoding_DefaultBinary,
-        &ObjectAttributes { specified_attributes: if f.below(4) == 0 { f.u32() } else { m.bits() }, display_name: LocalizedText::from("o"), description: LocalizedText::new("", "d"), write_mask: f.u32(), user_write_mask: 0, event_notifier: f.u8() },
-    )
+    let mut a = ObjectAttributes { specified_attributes: if f.below(4) == 0 { f.u32() } else { m.bits() }, display_name: LocalizedText::from("o"), description: LocalizedText::new("", "d"), write_mask: f.u32(), user_write_mask: 0, event_notifier: f.u8() };
+    // the mandatory bits plus any other valid bit, whether or not the field it names is there
+    if f.chance(100) {
+        a.specified_attributes |= f.u32() & AttributesMask::all().bits();
+    }
+    ExtensionObject::from_encodable(ObjectId::ObjectAttributes_Encoding_DefaultBinary, &a)
+}
+
+/// attributes of the other six node classes, every field from the byte stream, the mask steered to valid bits half of the time
+fn other_class_attributes(f: &mut Filler) -> (NodeClass, ExtensionObject) {
+    let all = AttributesMask::all().bits();
+    let mask = |f: &mut Filler| match f.below(4) {
+        0 => f.u32(),
+        1 => all,
+        _ => all & (f.u32() | f.u32()),
+    };
+    match f.below(6) {
+        0 => {
+            let mut a = fill_MethodAttributes(f, 1);
+            a.specified_attributes = mask(f);
+            (NodeClass::Method, ExtensionObject::from_encodable(ObjectId::MethodAttributes_Encoding_DefaultBinary, &a))
+        }
+        1 => {
+            let mut a = fill_ObjectTypeAttributes(f, 1);
+            a.specified_attributes = mask(f);
+            (NodeClass::ObjectType, ExtensionObject::from_encodable(ObjectId::ObjectTypeAttributes_Encoding_DefaultBinary, &a))
+        }
+        2 => {
+            let mut a = fill_VariableTypeAttributes(f, 1);
+            a.specified_attributes = mask(f);
+            if f.bool() {
+                a.data_type = DataTypeId::Int32.into();
+            }
+            (NodeClass::VariableType, ExtensionObject::from_encodable(ObjectId::VariableTypeAttributes_Encoding_DefaultBinary, &a))
+        }
+        3 => {
+            let mut a = fill_ReferenceTypeAttributes(f, 1);
+            a.specified_attributes = mask(f);
+            (NodeClass::ReferenceType, ExtensionObject::from_encodable(ObjectId::ReferenceTypeAttributes_Encoding_DefaultBinary, &a))
+        }
+        4 => {
+            let mut a = fill_DataTypeAttributes(f, 1);
+            a.specified_attributes = mask(f);
+            (NodeClass::DataType, ExtensionObject::from_encodable(ObjectId::DataTypeAttributes_Encoding_DefaultBinary, &a))
+        }
+        _ => {
+            let mut a = fill_ViewAttributes(f, 1);
+            a.specified_attributes = mask(f);
+            (NodeClass::View, ExtensionObject::from_encodable(ObjectId::ViewAttributes_Encoding_DefaultBinary, &a))
+        }
+    }
 }
 
 fn variable_attributes(f: &mut Filler) -> ExtensionObject {
     let m = AttributesMask::DISPLAY_NAME | AttributesMask::ACCESS_LEVEL | AttributesMask::USER_ACCESS_LEVEL | AttributesMask::DATA_TYPE | AttributesMask::HISTORIZING | AttributesMask::VALUE | AttributesMask::VALUE_RANK;
-    ExtensionObject::from_encodable(
-        ObjectId::VariableAttributes_Encoding_DefaultBinary,
-        &VariableAttributes {
+    let mut a = VariableAttributes {
             specified_attributes: if f.below(4) == 0 { f.u32() } else { m.bits() },
             display_name: LocalizedText::from("v"),
             description: LocalizedText::null(),
@@ -127,8 +172,12 @@ fn variable_attributes(f: &mut Filler) -> ExtensionObject {
             user_access_level: f.u8(),
             minimum_sampling_interval: f.f64_biased(true),
             historizing: f.bool(),
-        },
-    )
+        };
+    // the mandatory bits plus any other valid bit, whether or not the field it names is there (array dimensions!)
+    if f.chance(128) {
+        a.specified_attributes |= f.u32() & AttributesMask::all().bits();
+    }
+    ExtensionObject::from_encodable(ObjectId::VariableAttributes_Encoding_DefaultBinary, &a)
 }
 
 fn literal(f: &mut Filler) -> ExtensionObject {
@@ -162,9 +211,26 @@ fn event_filter(f: &mut Filler, w: &World) -> ExtensionObject {
             ContentFilterElement { filter_operator: fill_FilterOperator(f), filter_operands: if f.below(8) == 0 { None } else { Some((0..k).map(|_| operand(f, w)).collect()) } }
         })
         .collect();
-    let selects = (0..f.below(3))
+    let mut selects: Vec<SimpleAttributeOperand> = (0..f.below(3))
         .map(|_| SimpleAttributeOperand { type_definition_id: if f.bool() { ObjectTypeId::BaseEventType.into() } else { w.pool(f) }, browse_path: if f.below(6) == 0 { None } else { Some(vec![QualifiedName::from(["EventId", "SourceNode", "Severity", "zz"][f.below(4)])]) }, attribute_id: [13u32, 1, 99][f.below(3)], index_range: UAString::null() })
         .collect();
+    // a select clause whose browse path ends at an existing node that is not an event field: a method, a type, a variable
+    // two levels down, a property
+    if f.chance(80) {
+        let starts: [NodeId; 4] = [ObjectId::Server.into(), ObjectTypeId::BaseEventType.into(), ObjectId::ObjectsFolder.into(), ObjectId::Server_ServerCapabilities.into()];
+        let start = starts[f.below(4)].clone();
+        let path: Vec<QualifiedName> = match f.below(8) {
+            0 => vec!["GetMonitoredItems".into()],
+            1 => vec!["ResendData".into()],
+            2 => vec!["AuditEventType".into()],
+            3 => vec!["ServerStatus".into(), "State".into()],
+            4 => vec!["ServerCapabilities".into()],
+            5 => vec!["NamespaceArray".into()],
+            6 => vec!["Server".into(), "GetMonitoredItems".into()],
+            _ => vec!["OperationLimits".into(), "MaxNodesPerRead".into()],
+        };
+        selects.push(SimpleAttributeOperand { type_definition_id: start, browse_path: Some(path), attribute_id: [13u32, 1, 5][f.below(3)], index_range: UAString::null() });
+    }
     ExtensionObject::from_encodable(ObjectId::EventFilter_Encoding_DefaultBinary, &EventFilter { select_clauses: if f.below(6) == 0 { None } else { Some(selects) }, where_clause: ContentFilter { elements: if n == 0 && f.bool() { None } else { Some(elements) } } })
 }
 
@@ -208,7 +274,7 @@ fn build(kind: u8, steer: u8, f: &mut Filler, w: &mut World, h: RequestHeader) -
                             let variable = f.below(3) == 0;
                             // half of the items are plausible apart from their browse name, so that they get past the checks
                             if f.bool() {
-                                return AddNodesItem {
+                                let mut item = AddNodesItem {
                                     parent_node_id: (if f.bool() { ObjectId::ObjectsFolder.into() } else { w.nodes[f.below(2)].clone() }).into(),
                                     reference_type_id: if f.bool() { ReferenceTypeId::Organizes.into() } else { ReferenceTypeId::HasComponent.into() },
                                     requested_new_node_id: if f.bool() { ExpandedNodeId::null() } else { NodeId::new(1, format!("c33-{}-{}-add{}", std::process::id(), w.case_no, w.fresh)).into() },
@@ -217,6 +283,24 @@ fn build(kind: u8, steer: u8, f: &mut Filler, w: &mut World, h: RequestHeader) -
                                     node_attributes: if variable { variable_attributes(f) } else { object_attributes(f) },
                                     type_definition: if variable { VariableTypeId::BaseDataVariableType.into() } else { ObjectTypeId::BaseObjectType.into() },
                                 };
+                                // a node of one of the other six classes (types, methods, views)
+                                if f.chance(56) {
+                                    let (class, attributes) = other_class_attributes(f);
+                                    item.node_class = class;
+                                    item.node_attributes = attributes;
+                                    item.type_definition = if f.bool() { ExpandedNodeId::null() } else { item.type_definition };
+                                    item.parent_node_id = match class {
+                                        NodeClass::ObjectType => NodeId::from(&ObjectTypeId::BaseObjectType).into(),
+                                        NodeClass::VariableType => NodeId::from(&VariableTypeId::BaseVariableType).into(),
+                                        NodeClass::ReferenceType => NodeId::from(&ReferenceTypeId::References).into(),
+                                        NodeClass::DataType => NodeId::from(&DataTypeId::BaseDataType).into(),
+                                        _ => item.parent_node_id,
+                                    };
+                                    if matches!(class, NodeClass::ObjectType | NodeClass::VariableType | NodeClass::ReferenceType | NodeClass::DataType) && f.bool() {
+                                        item.reference_type_id = ReferenceTypeId::HasSubtype.into();
+                                    }
+                                }
+                                return item;
                             }
                             AddNodesItem {
                                 parent_node_id: ExpandedNodeId { node_id: w.pool(f), namespace_uri: UAString::null(), server_index: if f.below(10) == 0 { f.u32() } else { 0 } },
